@@ -45,7 +45,12 @@ ASSUMPTIONS = [
     "shape / active range: the reported shape (the upper rank's) is pinned by "
     "test_tensor.py::test_flattenRanks_corr_shape, whose comment says the combination is only meaningful for "
     "flattening a relative-coordinate split",
-    "when the operand's shape is estimated nothing is demanded about getShape(authoritative=True) of the result",
+    "when the operand's shape is estimated nothing is demanded about getShape(authoritative=True) of the result, and "
+    "'inside the reported shape' is read for tuple coordinates the way the library's own range iteration compares "
+    "them (lexicographically; the estimate is the lexicographic maximum + 1); with a declared shape it is read "
+    "component-wise",
+    "updateCoords is exercised with an order reversal inside the extent the operand reports (declared shape or "
+    "estimate), so the function itself never moves a coordinate outside the shape",
     "formats are compared only for ranks whose id exists on both sides or derives from a split; ranks created by "
     "flatten / merge / unflatten must be 'C' (documented in the source)",
     "splits without halos (with halos coordinates outside the active range are intended)",
@@ -103,6 +108,7 @@ class Chk:
         if not self.C:
             self.base.add("content_empty")
         self.out = []
+        self.par = ""      # exact parameters of the call being judged (recorded with a violation)
 
     def fresh(self):
         return build(self.spec, self.dims, self.smode, self.dflt, self.fmts, self.mut)
@@ -117,12 +123,12 @@ class Chk:
     def V(self, fam, sym, feats, exp, obs):
         sel = self.CONFIG.get(sym)
         if sel is None:
-            base = self.base
+            base = self.base - {"mutable_true", "nonzero_default"}
         else:
             base = {x for x in self.base if x.startswith(sel)} if sel else set()
             if "content_empty" in self.base:
                 base.add("content_empty")
-        self.out.append((fam, sym, base | set(feats), exp, obs))
+        self.out.append((fam, sym, base | set(feats), exp, {"call": "%s %s" % (fam, self.par), "observed": obs}))
 
     def call(self, fam, fn):
         try:
@@ -256,11 +262,13 @@ def g_swizzle(k):
     for perm in itertools.permutations(range(D)):
         feats = {"identity" if perm == tuple(range(D)) else "proper_permutation"}
         exp = R.exp_perm(k.ids, k.shape, k.fm, perm)
+        k.par = "rank_ids=%s" % (exp[0],)
         r = k.call("swizzleRanks", lambda: k.fresh().swizzleRanks(list(exp[0])))
         if r is not None:
             k.check("swizzleRanks", feats, r, exp)
     for d in range(D - 1):
         exp = R.exp_swap(k.ids, k.shape, k.fm, d)
+        k.par = "depth=%d" % d
         r = k.call("swapRanks", lambda: k.fresh().swapRanks(depth=d))
         if r is not None:
             k.check("swapRanks", set(), r, exp)
@@ -276,6 +284,7 @@ def g_flatten(k):
                     R9.rank_collides(R9.stored_prefixes(k.spec, D, d + l + 1), d, l, style, dims):
                 continue
             feats = {"levels=1" if l == 1 else "levels>1", "style:" + style}
+            k.par = "depth=%d levels=%d style=%s" % (d, l, style)
             exp = R.exp_flatten(k.ids, k.shape, k.fm, d, l, style)
             r = k.call("flattenRanks", lambda: k.fresh().flattenRanks(depth=d, levels=l, coord_style=style))
             if r is None:
@@ -294,6 +303,7 @@ def g_merge(k):
     for d, l in R9.legal_flatten(D):
         for style in ("absolute", "relative"):
             feats = {"levels=1" if l == 1 else "levels>1", "style:" + style}
+            k.par = "depth=%d levels=%d style=%s" % (d, l, style)
             if k.est(d + l) > k.est(d):
                 feats.add("lower_extent_exceeds_upper")
             exp = R.exp_flatten(k.ids, k.shape, k.fm, d, l, style)
@@ -310,11 +320,11 @@ SPLITS = (
 )
 
 
-def g_split(k):
+def g_split(k, splits=SPLITS):
     D = k.depth
     for d in range(D):
         exp = R.exp_split(k.ids, k.shape, k.fm, d)
-        for kind, args in SPLITS:
+        for kind, args in splits:
             for rel in (False, True):
                 for how in ("depth", "rankid"):
                     if how == "rankid" and (rel or args[0] in (2, [0, 2], [2, 1])):
@@ -327,10 +337,12 @@ def g_split(k):
                     kw = {"depth": d} if how == "depth" else {"rankid": k.ids[d]}
                     if rel:
                         kw["relativeCoords"] = True
+                    k.par = "%s %s" % (args[0], kw)
                     r = k.call(kind, lambda: getattr(k.fresh(), kind)(*args, **kw))
                     if r is not None:
                         k.check(kind, feats, r, exp)
     exp = R.exp_split(k.ids, k.shape, k.fm, 0)
+    k.par = "2"
     for name, fn in (("truediv", lambda t: t / 2), ("floordiv", lambda t: t // 2)):
         r = k.call(name, lambda: fn(k.fresh()))
         if r is not None:
@@ -342,18 +354,23 @@ def g_update(k):
     exp = (k.ids, k.shape, k.fm)
     for d in range(D):
         n = k.est(d)      # reverse inside the extent the operand reports
+        k.par = "depth=%d func=reverse within %d" % (d, n)
         r = k.call("updateCoords", lambda: k.fresh().updateCoords(lambda i, c, p: n - 1 - c, depth=d))
         if r is not None:
             k.check("updateCoords", set(), r, exp)
+    k.par = "identity at the leaf rank"
     r = k.call("updatePayloads", lambda: k.fresh().updatePayloads(lambda i, c, p: p, depth=D - 1))
     if r is not None:
         k.check("updatePayloads", set(), r, exp)
     # the constructor result itself
+    k.par = ""
     k.check("fromFiber", set(), k.fresh(), exp)
 
 
 GROUPS = ("swizzle", "flatten", "merge", "split", "update")
-GROUP_FN = {"swizzle": g_swizzle, "flatten": g_flatten, "merge": g_merge, "split": g_split, "update": g_update}
+GROUPS_Q = ("swizzle", "flatten", "merge", "split1", "update")     # split1: one parameter value per split kind
+GROUP_FN = {"swizzle": g_swizzle, "flatten": g_flatten, "merge": g_merge, "split": g_split, "update": g_update,
+            "split1": lambda k: g_split(k, SPLITS[::2])}
 
 
 def case_transform(case):
@@ -405,13 +422,13 @@ def _universe(name):
 
 
 def shard_transform(acc, shard, nshards, params):
-    name, mode, deadline = params
+    name, mode, groups, deadline = params
     dims, specs = _universe(name)
 
     def gen():
         for spec in specs:
             for smode, dflt, fmts, mut in configs(len(dims), mode):
-                for g in GROUPS:
+                for g in groups:
                     yield (dims, spec, smode, dflt, fmts, mut, g)
     drive(acc, "transform", case_transform, gen(), shard, nshards, family="transform[%s,%s]" % (name, mode), deadline=deadline)
 
@@ -694,20 +711,21 @@ def run(ctx):
     q = ctx.quick
     if q:
         tplan = [("T2(2,2)", "full", None), ("T2(2,3;-v)", "shapefmt", None), ("T2(3,2;-v)", "shapefmt", None),
-                 ("T3c(2,2,2;<=2|8)", "paired", None)]
+                 ("T3c(2,2,2;<=2|8)", "shapefmt", None)]
         lazy_n, join_u = 2, ["T2(2,2)"]
     else:
-        tplan = [("T2(2,2)", "full", None), ("T2(2,3;-v)", "full", None), ("T2(3,2)", "paired", None),
-                 ("T3c(2,2,2;<=2|8)", "full", None), ("T3(2,2,2;-v)", "paired", 420)]
+        tplan = [("T2(2,2)", "full", None), ("T2(2,3;-v)", "full", None), ("T2(3,2)", "shapefmt", None),
+                 ("T3c(2,2,2;<=2|8)", "full", None), ("T3(2,2,2;-v)", "shapefmt", 420)]
         lazy_n, join_u = 3, ["T2(2,2)", "T3(2,2,2;-v)"]
     ctx.bounds = {
         "transform": "universes (with configuration mode) %s; configurations full = {declared, estimated shape} x "
                      "{default 0, 7} x {C,U}^depth x {mutable False, True}, paired = default and mutable hint move together "
                      "((0,False),(7,True)), shapefmt = shape mode x formats with default 7 and mutable True; swizzleRanks every permutation, swapRanks every depth, flattenRanks every "
                      "legal (depth, levels) x 5 styles (+ unflattenRanks for tuple / pair), mergeRanks absolute / relative, "
-                     "splitUniform / splitEqual / splitNonUniform / splitUnEqual (two parameter values, relativeCoords both "
+                     "splitUniform / splitEqual / splitNonUniform / splitUnEqual (%s, relativeCoords both "
                      "ways, by depth and by rank id) at every depth, / and //, updateCoords at every depth, updatePayloads, "
-                     "and the constructor result itself" % ", ".join("%s:%s" % (n, m) for n, m, _ in tplan),
+                     "and the constructor result itself" % (", ".join("%s:%s" % (n, m) for n, m, _ in tplan),
+                                                          "one parameter value" if q else "two parameter values"),
         "lazy": "all ordered pairs of F1(%d) x first operand's active range in {None} + every (s,e) with 0<=s<e<=%d x second "
                 "operand's in {None,(1,%d)} x shapes {declared, estimated} x {unowned, owned}; operators & | ^ - << "
                 "intersection (both styles) union prune coiterShape[Ref] coiterActiveShape[Ref] coiterRangeShape[Ref] "
@@ -721,7 +739,8 @@ def run(ctx):
         return not only or any(name.startswith(o) for o in only)
     for name, mode, dl in tplan:
         if want("transform") or want(name):
-            ctx.shards(shard_transform, (name, mode, None if dl is None else time.time() + dl))
+            ctx.shards(shard_transform, (name, mode, GROUPS_Q if q else GROUPS,
+                                         None if dl is None else time.time() + dl))
     if want("lazy"):
         ctx.shards(shard_lazy, (lazy_n,))
     if want("join"):
